@@ -5,6 +5,7 @@ package main
 import (
 	"go/types"
 	"fmt"
+	"sort"
 	"math/big"
 
 	"golang.org/x/tools/go/ssa"
@@ -339,9 +340,9 @@ func (ex *Exec) frameUnchanged(g *Term, msg string) {
 				var ov Value
 				var ok *Term
 				if o.typ == nil {
-					ov, ok = syncMapLookup(ex, ptrTo(oldObj, -1), e.Key.(*Term), True)
+					ov, ok = syncMapLookup(ex, ptrTo(oldObj, -1), e.Key, True)
 				} else {
-					ov, ok = ex.mapLookup(ptrTo(oldObj, -1), e.Key.(*Term), mapElemType(o), True)
+					ov, ok = ex.mapLookup(ptrTo(oldObj, -1), e.Key, mapElemType(o), True)
 				}
 				d := And(e.G, Or(Not(ok), valuesDiffer(ov, e.Val)))
 				if !d.IsFalse() {
@@ -435,4 +436,87 @@ func (ex *Exec) chunkRead(args []Value, g *Term, where string) Value {
 	o.cells[4] = iteValue(g, BVBin(OpBVAdd, pos, BV(1)), pos)
 	ex.panicIf(And(g, BVBin(OpBVSLt, BV(int64(buf.Cap)), StrLenBV(data))), "chunk larger than the read buffer (outside the reader model) at "+where)
 	return TupleVal{StrLenBV(data), err}
+}
+
+// ---------------------------------------------------------------------------
+// language.Tag.String()
+
+var tagGlobalNames = map[string]string{
+	"Afrikaans": "af", "Amharic": "am", "Arabic": "ar", "ModernStandardArabic": "ar-001", "Azerbaijani": "az", "Bulgarian": "bg",
+	"Bengali": "bn", "Catalan": "ca", "Czech": "cs", "Danish": "da", "German": "de", "Greek": "el", "English": "en",
+	"AmericanEnglish": "en-US", "BritishEnglish": "en-GB", "Spanish": "es", "EuropeanSpanish": "es-ES", "LatinAmericanSpanish": "es-419",
+	"Estonian": "et", "Persian": "fa", "Finnish": "fi", "Filipino": "fil", "French": "fr", "CanadianFrench": "fr-CA", "Gujarati": "gu",
+	"Hebrew": "he", "Hindi": "hi", "Croatian": "hr", "Hungarian": "hu", "Armenian": "hy", "Indonesian": "id", "Icelandic": "is",
+	"Italian": "it", "Japanese": "ja", "Georgian": "ka", "Kazakh": "kk", "Khmer": "km", "Kannada": "kn", "Korean": "ko", "Kirghiz": "ky",
+	"Lao": "lo", "Lithuanian": "lt", "Latvian": "lv", "Macedonian": "mk", "Malayalam": "ml", "Mongolian": "mn", "Marathi": "mr",
+	"Malay": "ms", "Burmese": "my", "Nepali": "ne", "Dutch": "nl", "Norwegian": "no", "Punjabi": "pa", "Polish": "pl", "Portuguese": "pt",
+	"BrazilianPortuguese": "pt-BR", "EuropeanPortuguese": "pt-PT", "Romanian": "ro", "Russian": "ru", "Sinhala": "si", "Slovak": "sk",
+	"Slovenian": "sl", "Albanian": "sq", "Serbian": "sr", "SerbianLatin": "sr-Latn", "Swedish": "sv", "Swahili": "sw", "Tamil": "ta",
+	"Telugu": "te", "Thai": "th", "Turkish": "tr", "Ukrainian": "uk", "Urdu": "ur", "Uzbek": "uz", "Vietnamese": "vi", "Chinese": "zh",
+	"SimplifiedChinese": "zh-Hans", "TraditionalChinese": "zh-Hant", "Zulu": "zu", "Und": "und",
+}
+
+// the tags a language variable may stand for when the code looks at its string form (regional variants and
+// look-alikes of the two supported languages, a few unrelated languages); all are valid BCP 47 tags
+var tagOtherStrings = []string{"fr", "de", "zh", "ko", "es", "en-US", "en-GB", "en-AU", "enm", "en-Latn", "ja-JP", "ja-Latn", "jam", "jv",
+	"und-JP", "und-US", "zh-Hans", "pt-BR", "ru", "ar", "it", "nl", "tlh"}
+
+func (ex *Exec) tagString(t *Term) *Term {
+	switch t.op {
+	case OpConst:
+		for name, id := range ex.tagIDs {
+			if id == t.i {
+				if s, ok := tagGlobalNames[name]; ok {
+					return Str(s)
+				}
+			}
+		}
+		unsupported("String() of an unknown constant language tag")
+	case OpIte:
+		return Ite(t.args[0], ex.tagString(t.args[1]), ex.tagString(t.args[2]))
+	case OpCases:
+		var cs []Case
+		for _, c := range t.cases {
+			cs = append(cs, Case{c.G, ex.tagString(c.V)})
+		}
+		return mkCases(SStr, cs)
+	case OpVar:
+		if ex.tagAux == nil {
+			ex.tagAux = map[*Term]*Term{}
+		}
+		aux, ok := ex.tagAux[t]
+		if !ok {
+			var k *Term
+			k, aux = ex.enumVar(t.s+".str", 0, int64(len(tagOtherStrings)-1))
+			ex.nondets = append(ex.nondets, NondetRec{Label: t.s + ".str", Kind: "langaux", Var: k})
+			// equal tags print equally
+			for ot, oa := range ex.tagAux {
+				ex.assumptions = append(ex.assumptions, Implies(Eq(ot, t), Eq(oa, aux)))
+			}
+			ex.tagAux[t] = aux
+		}
+		other := lift(SStr, func(cs []*Term) *Term { return Str(tagOtherStrings[cs[0].i]) }, aux)
+		// known tags first (deterministic order)
+		var names []string
+		for name := range ex.tagIDs {
+			names = append(names, name)
+		}
+		sort.Strings(names)
+		res := other
+		var notKnown []*Term
+		for _, name := range names {
+			s, ok := tagGlobalNames[name]
+			if !ok {
+				continue
+			}
+			is := Eq(t, BV(ex.tagIDs[name]))
+			res = Ite(is, Str(s), res)
+			notKnown = append(notKnown, Implies(Not(is), Not(Eq(other, Str(s)))))
+		}
+		// a tag that is none of the referenced constants does not print like one of them
+		ex.assumptions = append(ex.assumptions, notKnown...)
+		return res
+	}
+	unsupported("String() of a language tag of shape %v", t.op)
+	return nil
 }
